@@ -21,6 +21,8 @@ pub fn run(ctx: &mut Ctx) {
     }
     concurrent_dials_one_cancelled_on_real_tcp(ctx, false, 1);
     known_address_naming_two_peers_on_real_tcp(ctx);
+    super::conn::dial_failures_reach_a_clogged_protocol(ctx, false);
+    super::conn::dial_failures_reach_a_clogged_protocol(ctx, true);
 }
 
 /// A known address for peer B that leads to (and names) another live node A before naming B
